@@ -990,6 +990,23 @@ def component_getters(repo) -> set[str]:
     return out
 
 
+def alias_expansion(repo, fi: FuncInfo, assign: ast.Assign, name: str) -> bool:
+    """`p = get_proper_type(p)` under `isinstance(p, TypeAliasType) and not p.is_recursive`: the target of a non-recursive alias is a
+    finite type whose own aliases do not lead back to it, so the pair (aliases left to expand, size of the term) still descends."""
+    v = assign.value
+    if not (isinstance(v, ast.Call) and (getattr(v.func, "attr", None) or getattr(v.func, "id", None)) == "get_proper_type" and len(v.args) == 1
+            and isinstance(v.args[0], ast.Name) and v.args[0].id == name):
+        return False
+    cur, prev = repo.parent(assign), assign
+    while cur is not None and cur is not fi.node:
+        if isinstance(cur, ast.If) and any(prev is b for b in cur.body):
+            t = ast.unparse(cur.test)
+            if f"isinstance({name}," in t and "TypeAliasType" in t and f"not {name}.is_recursive" in t:
+                return True
+        prev, cur = cur, repo.parent(cur)
+    return False
+
+
 def descends(repo, fi: FuncInfo, call: ast.Call, params: list[str]) -> str | None:
     getters = component_getters(repo)
     derived: dict[str, str] = {}
@@ -1039,7 +1056,7 @@ def descends(repo, fi: FuncInfo, call: ast.Call, params: list[str]) -> str | Non
             for t in x.targets:
                 if isinstance(t, ast.Name) and t.id in params:
                     r, st = chain(x.value)
-                    if not (r == t.id and st >= 1):
+                    if not (r == t.id and st >= 1) and not alias_expansion(repo, fi, x, t.id):
                         params.remove(t.id)
         elif isinstance(x, (ast.AugAssign, ast.AnnAssign)) and isinstance(x.target, ast.Name) and x.target.id in params and getattr(x, "value", None) is not None:
             params.remove(x.target.id)
